@@ -312,26 +312,28 @@ def frameBts : List (Frame Raw) → List BlockType
 theorem top_frameBts (st : List (Frame Raw)) : Cli.top (frameBts st) = frameBt st := by
   cases st <;> simp [frameBts, Cli.top, frameBt]
 
+/-- the error of an outcome -/
+def errOf {ε α : Type} : Except ε α → Option ε
+  | .ok _ => none
+  | .error f => some f
+
 theorem fault?_build (kind : Raw → RowKind) (rows : List Raw) :
     ∀ (st : List (Frame Raw)) (cur : List (FItem Raw)),
-      (build kind st cur rows).fault? =
-        (match Cli.runBlocks (frameBts st) (rows.map kind) with
-         | .ok _ => none
-         | .error f => some f) := by
+      (build kind st cur rows).fault? = errOf (Cli.runBlocks (frameBts st) (rows.map kind)) := by
   induction rows with
   | nil =>
     intro st cur
     cases st with
-    | nil => simp [build, PTree.fault?, Cli.runBlocks, frameBts, Cli.top, isEndOfBlock]
+    | nil => simp [build, PTree.fault?, Cli.runBlocks, frameBts, Cli.top, isEndOfBlock, errOf]
     | cons f st =>
       cases hf : f.isFor <;>
-        simp [build, fault?_wrap, PTree.fault?, Cli.runBlocks, frameBts, Cli.top, isEndOfBlock, hf]
+        simp [build, fault?_wrap, PTree.fault?, Cli.runBlocks, frameBts, Cli.top, isEndOfBlock, hf, errOf]
   | cons r rs ih =>
     intro st cur
     rw [build_cons]
     simp only [List.map_cons, Cli.runBlocks, top_frameBts]
     cases hE : isEndOfBlock (frameBt st) (some (kind r)) with
-    | error f => simp [fault?_wrap, PTree.fault?]
+    | error f => simp [fault?_wrap, PTree.fault?, errOf]
     | ok b =>
       cases b with
       | true =>
